@@ -10,5 +10,7 @@ var Registry = map[string]func(*Ctx) int{
 	"C03": C03,
 	"C05": C05,
 	"C09": C09,
+	"C10": C10,
 	"C16": C16,
+	"C19": C19,
 }
